@@ -834,6 +834,6 @@ def _realness(e, fn: Func, env=None):
 
 
 def check(run, P):
-    _check_main(run, P)
+    run.do(_check_main, run, P)
     from . import generic
     generic.lints(run, P, "C09")
